@@ -63,6 +63,15 @@ def rnd_name(rng):
     return list(rng.choice(NAMES).encode())
 
 
+def with_repeats(rng, items):
+    """a list in which an item may occur twice (lists handed to / found in PDUs are lists, not sets)"""
+    if items and rng.random() < 0.25:
+        import copy
+        items = list(items)
+        items.insert(rng.randrange(len(items) + 1), copy.deepcopy(items[0]))
+    return items
+
+
 def rnd_resp(rng):
     act = rng.randrange(9)
     two = act in (2, 3, 4)
@@ -79,17 +88,21 @@ def rnd_params(rng, kind, large, overflow=False):
         cond = rng.choice(COND)
         fault = [] if cond in (0, 11) or rng.random() < 0.5 else [rnd_id(rng, rng.choice([1, 2, 4, 8]))]
         return {"cond": cond, "delivery": rng.randrange(2), "status": rng.randrange(4),
-                "responses": [rnd_resp(rng) for _ in range(rng.choice([0, 0, 1, 2, 3]))], "fault": fault}
+                "responses": with_repeats(rng, [rnd_resp(rng) for _ in range(rng.choice([0, 0, 1, 2, 3]))]), "fault": fault}
     if kind == "ack":
         return {"acked": rng.choice([4, 5]), "cond": rng.choice(COND), "tstatus": rng.randrange(4)}
     if kind == "metadata":
         opts = [{"t": rng.choice([0, 1, 2, 4, 5, 6]), "v": rnd_bytes(rng, rng.choice([0, 1, 5, 30]))}
                 for _ in range(rng.choice([0, 0, 1, 2, 3]))]
         return {"closure": rng.randrange(2), "cktype": rng.choice(CKTYPES), "size": rnd_size(rng, large, overflow),
-                "srcname": rnd_name(rng), "dstname": rnd_name(rng), "options": opts}
+                "srcname": rnd_name(rng), "dstname": rnd_name(rng), "options": with_repeats(rng, opts)}
     if kind == "nak":
         n = rng.choice([0, 0, 1, 2, 5])
         segs = [[rnd_size(rng, large), rnd_size(rng, large)] for _ in range(n)]
+        if segs and rng.random() < 0.3:
+            # repeated items are legal list contents (overlapping NAK timers request the same range twice): the list is a
+            # list, not a set
+            segs.insert(rng.randrange(len(segs) + 1), [list(segs[0][0]), list(segs[0][1])])
         if overflow and segs and rng.random() < 0.5:
             segs[-1][rng.randrange(2)] = rnd_size(rng, large, True)
             return {"start": rnd_size(rng, large), "end": rnd_size(rng, large), "segs": segs}
